@@ -2,44 +2,55 @@
   (T) translator: `translate_part`, `insert_part` and the grid limits of helper/formula.rs, regenerated
   from the source on every run (`Umya/Model/Gen/Kernels.lean`), are the hand model's `translatePart`,
   `insertPart`, `maxCol`, `maxRow`.
+
+  The proof script does not follow the shape of the generated term (`part_eq`): the lock flag and `is_end` are
+  case-split up front, the Boolean conditions of BOTH sides are turned into arithmetic propositions, EVERY
+  conditional of both sides is split, and each leaf is closed by `omega` (contradictory paths: from the path
+  conditions; matching paths: the equality of the numbers, `Int.toNat` included).  Swapped branches under a negated
+  condition, De Morgan forms, early returns or nested `if`s, commuted operands, renamed / inlined / hoisted locals
+  still prove; a changed comparison, bound or operator does not.
 -/
 import Umya.Model.Gen.Kernels
 import Umya.Model.Formula
 namespace Umya.Gen
 open Umya.Formula
 
+/-- Boolean conditions (of the goal and of the hypotheses) as arithmetic propositions -/
+macro "part_norm" : tactic => `(tactic|
+  simp only [Bool.or_eq_true, Bool.and_eq_true, Bool.or_eq_false_iff, Bool.and_eq_false_iff, Bool.not_eq_true', Bool.not_eq_false',
+    Bool.not_eq_true, Bool.not_eq_false, Bool.not_not, Bool.not_true, Bool.not_false,
+    decide_eq_true_eq, decide_eq_false_iff_not, beq_iff_eq, bne_iff_ne, beq_eq_false_iff_ne, bne_eq_false_iff_eq, ne_eq,
+    Bool.true_eq_false, Bool.false_eq_true, Bool.or_false, Bool.or_true, Bool.false_or, Bool.true_or, Bool.and_false,
+    Bool.and_true, Bool.false_and, Bool.true_and, eq_self, not_true_eq_false, not_false_eq_true,
+    if_true, if_false, ite_true, ite_false, ↓reduceIte] at *)
+
+/-- split every conditional of both sides; normalise the path conditions; close each leaf by arithmetic -/
+macro "part_eq" : tactic => `(tactic|
+  ((try part_norm)
+   repeat' split
+   all_goals (try part_norm)
+   all_goals (first
+     | rfl
+     | omega
+     | (exfalso; omega)
+     | (simp only [Option.map_some, Option.map_none, Option.some.injEq, Prod.mk.injEq, and_true, true_and, reduceCtorEq] at * <;> omega)
+     | (simp_all <;> omega)
+     | simp_all)))
+
 theorem gen_translate_part (p : Part) (d : Int) (max : Nat) :
     (translate_part ((p.1 : Int), p.2) d max).map (fun q => (q.1.toNat, q.2)) = translatePart p d max := by
   obtain ⟨n, l⟩ := p
-  cases l with
-  | true => simp [translate_part, translatePart]
-  | false =>
-    simp only [translate_part, translatePart, Bool.false_eq_true, if_false]
-    by_cases h : ((n : Int) + d < 1) ∨ ((n : Int) + d > (max : Int))
-    · have : (decide ((n : Int) + d < 1) || decide ((n : Int) + d > (max : Int))) = true := by
-        rcases h with h | h <;> simp [h]
-      simp [this]
-    · have h1 : ¬ ((n : Int) + d < 1) := fun x => h (Or.inl x)
-      have h2 : ¬ ((n : Int) + d > (max : Int)) := fun x => h (Or.inr x)
-      simp [h1, h2]
+  cases l <;>
+  · simp only [translate_part, translatePart]
+    part_eq
 
 theorem gen_insert_part (p : Part) (root off max : Nat) (isEnd : Bool) :
     (insert_part ((p.1 : Int), p.2) root off max isEnd).map (fun q => (q.1.toNat, q.2))
       = insertPart p root off max isEnd := by
   obtain ⟨n, l⟩ := p
-  simp only [insert_part, insertPart]
-  by_cases h1 : n < root
-  · have : ((n : Int) < (root : Int)) := by omega
-    simp [h1, this]
-  · have h1' : ¬ ((n : Int) < (root : Int)) := by omega
-    by_cases h2 : off = 0
-    · simp [h2]
-    · by_cases h3 : n + off ≤ max
-      · have : ((n : Int) + (off : Int) ≤ (max : Int)) := by omega
-        have e : ((n : Int) + (off : Int)).toNat = n + off := by omega
-        simp [h1, h1', h2, h3, this, e]
-      · have : ¬ ((n : Int) + (off : Int) ≤ (max : Int)) := by omega
-        cases isEnd <;> simp [h1, h1', h2, h3, this]
+  cases l <;> cases isEnd <;>
+  · simp only [insert_part, insertPart]
+    part_eq
 
 theorem gen_grid_limits : max_column_num = maxCol ∧ max_row_num = maxRow := ⟨rfl, rfl⟩
 
